@@ -458,6 +458,10 @@ fn clerk_battery() -> String {
     expect("other_message_then_A", &[other_msg.clone(), a.clone()], &params, true);
     expect("A_twice_B_twice", &[a.clone(), b.clone(), a.clone(), b.clone()], &params, true);
     expect("A_A_A_with_two_parties", &[a.clone(), a.clone(), a.clone()], &params, true);
+    // more entries than registered parties: the signatures that complete the quorum come last
+    let other_msg_a = signers[0].create_single_signature(b"another message").unwrap();
+    expect("junk_from_every_signer_then_A", &[other_msg_a.clone(), other_msg.clone(), a.clone()], &params, true);
+    expect("A01_A01_A01_B23_k4", &[with_indexes(&a, &[0, 1]), with_indexes(&a, &[0, 1]), with_indexes(&a, &[0, 1]), with_indexes(&b, &[2, 3])], &k4, true);
     let _ = clerk;
     out.join(" ")
 }
@@ -470,6 +474,7 @@ fn main() {
         Some("pop_halves") => pop_halves(),
         Some("lost_index") => lost_index(),
         Some("after_quorum") => after_quorum(),
+        Some("merkle_full_set") => merkle_full_set(),
         Some("batch_same_message") => batch_same_message(),
         Some("merkle_forge") => merkle_forge(&a[1]),
         Some("sample_points") => {
@@ -712,4 +717,31 @@ fn batch_same_message() -> String {
         out.push(format!("{}={}{}", name, if ok == want { "" } else { "VIOLATED " }, r.chars().take(20).collect::<String>()));
     }
     out.join(" ")
+}
+
+
+/// honest aggregates in which EVERY registered party (resp. every party but one) signs, for registrations of 2..=9 parties:
+/// the generated batch proof over all leaves of a tree with padding positions must verify
+fn merkle_full_set() -> String {
+    let mut bad = Vec::new();
+    let mut tried = 0;
+    for n in 2u64..=9 {
+        for skip in [None, Some(0usize), Some((n - 1) as usize)] {
+            let params = Parameters { m: n, k: n - if skip.is_some() { 1 } else { 0 }, phi_f: 1.0 };
+            let stakes: Vec<u64> = (0..n).map(|i| 10 + i).collect();
+            let (signers, clerk) = setup(params, &stakes);
+            let msg = b"verif-replay".to_vec();
+            let mut sigs = Vec::new();
+            let mut next = 0u64;
+            for (i, s) in signers.iter().enumerate() {
+                if Some(i) == skip { continue; }
+                sigs.push(with_indexes(&s.create_single_signature(&msg).unwrap(), &[next]));
+                next += 1;
+            }
+            tried += 1;
+            let r = aggregate_and_verify(&clerk, &sigs, &msg, &params);
+            if r != "accepted" { bad.push(format!("n={} skip={:?}: {}", n, skip, r.chars().take(40).collect::<String>())); }
+        }
+    }
+    if bad.is_empty() { format!("all {} honest full / all-but-one aggregates verify", tried) } else { format!("VIOLATED {}", bad.join("; ")) }
 }
